@@ -17,7 +17,7 @@ import numpy as np
 from scipy import sparse
 
 from vlib import graphs
-from vlib.cases import Case, Sub, call as _call0, evaluate as _evaluate
+from vlib.cases import Case, Sub, call as _call0
 from vlib.core import (enc_csr, enc_list, enc_listlist, enc_bool, enc_ratlist, dec_list, dec_ratlist, _exact,
                        ToolFailure)
 
@@ -48,7 +48,9 @@ ASSUMPTIONS = ['np.argsort returns a sorting permutation (checked by contract_ar
                'evaluated by contract lines on every run: one label per node, refined clusters inside coarse clusters, '
                'no merge => stop flag (Louvain, tol_aggregation >= 0), a round without stop flag shrinks the graph '
                '(Leiden), one row of scores per node',
-               'tol_aggregation >= 0 (a negative tolerance makes the real loop non-terminating: outside the options drawn)',
+               'tol_aggregation >= 0 for Louvain, > 0 for Leiden (a negative tolerance makes the real loops '
+               'non-terminating, and Leiden with tolerance 0 can oscillate for ever on float noise: reported to C17, '
+               'outside the options drawn); a fit that goes beyond 200 rounds is stopped by the harness, noted and skipped',
                'KCenters is run on non-negative weights with positive total only (PageRank refuses other inputs inside '
                'the part that is a parameter of the model)',
                'a node "without outgoing edge" is read as a node of zero out-weight (explicit zeros count as no edge)']
@@ -57,6 +59,13 @@ ASSUMPTIONS = ['np.argsort returns a sorting permutation (checked by contract_ar
 def _call(f):
     """ValueError / IndexError are refusals the models know; anything else is a failure of the tooling."""
     return _call0(f, errors=(ValueError, IndexError))
+
+
+class TooManyRounds(Exception):
+    """raised by the Recorder when a fit goes beyond MAX_ROUNDS aggregation rounds (termination is C17's)"""
+
+
+MAX_ROUNDS = 200
 
 
 def _fit(ctx, f, sig, desc, refusal_expected=False):
@@ -71,6 +80,11 @@ def _fit(ctx, f, sig, desc, refusal_expected=False):
             warnings.simplefilter('ignore', RuntimeWarning)      # potts on an all-zero matrix divides by zero
             f()
         return 'ok'
+    except TooManyRounds:
+        # not a C05 verdict ("after fit"): noted, counted, skipped
+        ctx.count('fit-not-terminating:%s' % sig.get('entry'))
+        ctx.note('fit stopped by the harness after %d rounds (termination is C17): %r' % (MAX_ROUNDS, desc.get('params')))
+        return None
     except Exception as e:
         tb = traceback.extract_tb(e.__traceback__)
         if tb and tb[-1].filename.endswith('c05.py'):
@@ -257,6 +271,8 @@ class Recorder:
 
         def opt_(labels, *a, **k):
             lab_in = np.asarray(labels).copy()
+            if len(self.levels) >= MAX_ROUNDS:
+                raise TooManyRounds()
             if not self.levels and a:
                 self.adj0 = sparse.csr_matrix(a[0]).copy()      # the graph of the first round
             res = o_opt(labels, *a, **k)
@@ -629,17 +645,36 @@ def _same(c, model, impl, spec_ok):
 
 
 def evaluate(ctx, cases):
-    """vlib's evaluate (spec-only cases carry no run line) after screening the answers to spec / contract lines:
-    `bad-args` / `unknown-cmd` there is a failure of the tooling (exit 2), never a failing input."""
-    specs = [c.spec for c in cases if c.spec]
-    if specs:
-        probe = {}
-        answers = ctx.lean(specs)
-        for ln, an in zip(specs, answers):
-            if an == 'bad-args' or an.startswith('unknown-cmd'):
-                raise ToolFailure('driver rejected spec line %r -> %r' % (ln[:300], an))
-            probe[ln] = an
-    _evaluate(ctx, cases, same=_same)
+    """Same logic as vlib.cases.evaluate (one pass through the driver), with the answers to spec / contract lines
+    screened like those to run lines: `bad-args` / `unknown-cmd` is a failure of the tooling (exit 2), never a
+    failing input."""
+    lines, idx = [], []
+    for c in cases:
+        idx.append(len(lines))
+        if c.run:
+            lines.append(c.run)
+        if c.spec:
+            lines.append(c.spec)
+    answers = ctx.lean(lines)
+    for ln, an in zip(lines, answers):
+        if an == 'bad-args' or an.startswith('unknown-cmd'):
+            raise ToolFailure('driver rejected request %r -> %r' % (ln[:300], an))
+    for c, i in zip(cases, idx):
+        model = answers[i] if c.run else None
+        ctx.case(c.key, c.nontrivial, sample={'request': c.run or c.spec, 'model': model, 'impl': c.impl})
+        ctx.count('entry:' + str(c.sig.get('entry')))
+        ctx.count('answer:' + ('error' if str(c.impl).startswith('err') else 'ok'))
+        spec_ok = True
+        if c.spec:
+            sp = answers[i + (1 if c.run else 0)]
+            if sp != 'holds':
+                spec_ok = False
+                ctx.spec_fail(c.sig, c.desc, {'spec_line': c.spec, 'spec_answer': sp, 'impl': c.impl, 'model': model})
+        if not c.run:
+            continue
+        eq = (model == c.impl) or bool(_same(c, model, c.impl, spec_ok))
+        if not eq and spec_ok:
+            ctx.disagree(c.sig, c.desc, model, c.impl, c.run)
 
 
 # ---------------------------------------------------------------------------------------------
@@ -757,6 +792,13 @@ def prop_params(rng):
             'return_probs': rng.random() < 0.8, 'return_aggregate': rng.random() < 0.8}
 
 
+def leiden_params(rng):
+    p = louvain_params(rng)
+    if p['tol_aggregation'] == 0:
+        p['tol_aggregation'] = 1e-6      # Leiden with tol_aggregation=0 may oscillate for ever (reported to C17)
+    return p
+
+
 def estimator_cases(ctx, name, b, reps=1, kcenters=True):
     rng = ctx.rng
     out = []
@@ -767,12 +809,12 @@ def estimator_cases(ctx, name, b, reps=1, kcenters=True):
         fb = square and rng.random() < 0.25
         out += louvain_cases(ctx, 'Louvain', b, louvain_params(rng), fb, cont())
         fb = square and rng.random() < 0.25
-        out += louvain_cases(ctx, 'Leiden', b, louvain_params(rng), fb, cont())
+        out += louvain_cases(ctx, 'Leiden', b, leiden_params(rng), fb, cont())
         if rng.random() < 0.85:
             out += propagation_cases(ctx, b, prop_params(rng), rng.randrange(10 ** 6), cont())
     if b.dtype != np.float64:
         # bool / int input: the aggregate alone (no cast made for the probabilities) must still be sums of weights
-        p = louvain_params(rng)
+        p = leiden_params(rng)
         p.update({'return_probs': False, 'return_aggregate': True})
         out += louvain_cases(ctx, rng.choice(['Louvain', 'Leiden']), b, p, False)
         pp = prop_params(rng)
@@ -953,7 +995,7 @@ def big_graph_cases(ctx):
             b = graphs.permute_csr(b, perm)
         for cn in ('Louvain', 'Leiden'):
             p = louvain_params(rng)
-            p.update({'n_aggregations': -1, 'tol_aggregation': rng.choice([1e-6, 0, 1e-3]), 'return_probs': False,
+            p.update({'n_aggregations': -1, 'tol_aggregation': rng.choice([1e-6, 1e-4, 1e-3]), 'return_probs': False,
                       'return_aggregate': False})
             out += louvain_cases(ctx, cn, b, p, False, light=True)
         pp = prop_params(rng)
